@@ -113,7 +113,7 @@ def run(chk, replay=None):
     traces, metas = [], []
     formats = ['csep-csv', 'zmap', 'jma-csv', 'ingv_horus', 'ndk']
     sizes = [1, 2, 3, 17, 200] if quick else [1, 2, 3, 17, 200, 2000]
-    reps = 3 if quick else 12
+    reps = 3 if quick else 80
     for fmt in formats:
         for n in sizes:
             for rep in range(reps if n < 200 else max(1, reps // 3)):
